@@ -711,6 +711,11 @@ PROPS["C01"]["check_mods"].append("C07")
 PROPS["C01"]["drivers"].append({"name": "c07", "n_quick": 150, "n_thorough": 4000, "timeout": 3000})
 PROPS["C01"]["rule"] += (" What the I/O thread writes on its own account (c07, see C07): the Connection.Close of a client "
     "exception for offending frames whose rendering is long and non-ASCII - a well-formed method frame, whatever the text.")
+# the client's own exception is one of the ways a connection dies (seed C05f: a panic while building its Close)
+PROPS["C05"]["check_mods"].append("C07")
+PROPS["C05"]["drivers"].append({"name": "c07", "n_quick": 150, "n_thorough": 4000, "timeout": 3000})
+PROPS["C05"]["rule"] += (" The client's own exception (c07, see C07): offending frames whose rendering is long and "
+    "non-ASCII - the thread must end with the exception's verdict (no panic), every queue told so.")
 # the public wrapper in front of the allocator (seed C10f): open_channel / close through Connection and Channel
 PROPS["C10"]["drivers"].append({"name": "c10l2", "n_quick": 60, "n_thorough": 3000, "timeout": 3000})
 PROPS["C10"]["rule"] += (" Through the public API (c10l2): real connections whose channel_max (1 / 2 / 3 / 5 / 8) was negotiated "
